@@ -2,8 +2,10 @@ package main
 
 import (
 	"fmt"
+	"github.com/taskctl/taskctl/pkg/runner"
 	"github.com/taskctl/taskctl/pkg/scheduler"
 	"github.com/taskctl/taskctl/pkg/task"
+	"github.com/taskctl/taskctl/pkg/variables"
 	"math/rand"
 	"strings"
 	"sync"
@@ -418,6 +420,11 @@ func runSched(col *Collector, focus, tier string, seed int64) {
 			sharedNestedCase(col, focus, k%2 == 0)
 		}
 	}
+	if focus == "C02" {
+		for v := 0; v < 3; v++ {
+			sharedTaskHistoryCase(col, v)
+		}
+	}
 	if focus == "C03" {
 		reps := 400
 		if tier == "thorough" {
@@ -669,6 +676,74 @@ func includedInParallelCase(col *Collector, includers, inner, reps int) {
 	cs.Impl = "once=" + fmt.Sprint(bad == "")
 	if bad != "" && cs.Fail == "" {
 		cs.Fail, cs.Sig = bad, "c03-twice"
+	}
+	col.Add(cs)
+}
+
+// one task shared by several stages (told apart by a stage variable), run by the REAL runner: the outcome of a stage
+// is that of its own execution, whatever an earlier execution of the same task left behind
+func sharedTaskHistoryCase(col *Collector, variant int) {
+	shared := task.FromCommands("exit {{.Code}}")
+	shared.Name = "shared"
+	mkStage := func(name, code string, allow bool, deps ...string) *scheduler.Stage {
+		return &scheduler.Stage{Name: name, Task: shared, AllowFailure: allow, DependsOn: deps, Variables: variables.FromMap(map[string]string{"Code": code})}
+	}
+	slow := task.FromCommands("sleep 0.3")
+	slow.Name = "slow"
+	var stages []*scheduler.Stage
+	var want map[string]int32
+	wantErr := false
+	desc := ""
+	switch variant {
+	case 0:
+		desc = "a (exit 3, allow_failure) -> b (exit 0) -> c (exit 0)"
+		stages = []*scheduler.Stage{mkStage("a", "3", true), mkStage("b", "0", false, "a"), mkStage("c", "0", false, "b")}
+		want = map[string]int32{"a": scheduler.StatusDone, "b": scheduler.StatusDone, "c": scheduler.StatusDone}
+	case 1:
+		desc = "a (exit 3) alone; slow -> e (exit 0) -> f (exit 0): e starts after a failed"
+		stages = []*scheduler.Stage{mkStage("a", "3", false), {Name: "slow", Task: slow}, mkStage("e", "0", false, "slow"), mkStage("f", "0", false, "e")}
+		want = map[string]int32{"a": scheduler.StatusError, "slow": scheduler.StatusDone, "e": scheduler.StatusDone, "f": scheduler.StatusDone}
+		wantErr = true
+	default:
+		desc = "a (exit 0) -> b (exit 4, allow_failure) -> c (exit 0) -> d (exit 5) -> e (exit 0)"
+		stages = []*scheduler.Stage{mkStage("a", "0", false), mkStage("b", "4", true, "a"), mkStage("c", "0", false, "b"), mkStage("d", "5", false, "c"), mkStage("e", "0", false, "d")}
+		want = map[string]int32{"a": scheduler.StatusDone, "b": scheduler.StatusDone, "c": scheduler.StatusDone, "d": scheduler.StatusError, "e": scheduler.StatusCanceled}
+		wantErr = true
+	}
+	cs := Case{Replay: "one task `exit {{.Code}}` shared by the stages: " + desc, Tags: []string{"shared-task-history"}, NonTrivial: true}
+	g, err := scheduler.NewExecutionGraph(stages...)
+	if err != nil {
+		cs.Fail, cs.Sig = err.Error(), "sched-setup"
+		col.Add(cs)
+		return
+	}
+	r, err := runner.NewTaskRunner()
+	if err != nil {
+		cs.Fail, cs.Sig = err.Error(), "sched-setup"
+		col.Add(cs)
+		return
+	}
+	r.Stdout, r.Stderr = devNull{}, devNull{}
+	sd := scheduler.NewScheduler(r)
+	sd.VerifSetPause(time.Millisecond)
+	done := make(chan error, 1)
+	go func() { done <- sd.Schedule(g) }()
+	var serr error
+	select {
+	case serr = <-done:
+	case <-time.After(15 * time.Second):
+		cs.Fail, cs.Sig = "Schedule did not return within 15s", "c03-no-return"
+	}
+	var got []string
+	for _, st := range stages {
+		got = append(got, fmt.Sprintf("%s=%d", st.Name, st.ReadStatus()))
+		if cs.Fail == "" && st.ReadStatus() != want[st.Name] {
+			cs.Fail, cs.Sig = fmt.Sprintf("stage %s ended with status %d, the graph and the outcomes determine %d", st.Name, st.ReadStatus(), want[st.Name]), "c02-final-status"
+		}
+	}
+	cs.Impl = strings.Join(got, ",") + fmt.Sprintf(" err=%v", serr != nil)
+	if cs.Fail == "" && (serr != nil) != wantErr {
+		cs.Fail, cs.Sig = fmt.Sprintf("the run reported error=%v, expected %v", serr != nil, wantErr), "c02-error-flag"
 	}
 	col.Add(cs)
 }
